@@ -41,12 +41,34 @@ func (l limbs) text(signed bool) string {
 	return strconv.FormatUint(l.u64(), 10)
 }
 
+// mant is the mantissa of a finite value of FloatSym.tla: a magnitude of BigInt.tla
+// (little-endian limbs of 15 bits), of any size for constants the formats cannot hold.
+type mant struct{ big.Int }
+
+func (m *mant) UnmarshalJSON(b []byte) error {
+	var ls []uint
+	if err := json.Unmarshal(b, &ls); err != nil {
+		return err
+	}
+	m.SetInt64(0)
+	for i := len(ls) - 1; i >= 0; i-- {
+		m.Lsh(&m.Int, 15)
+		m.Or(&m.Int, new(big.Int).SetUint64(uint64(ls[i])))
+	}
+	return nil
+}
+
 // fval is a value of FloatSym.tla.
 type fval struct {
 	C string `json:"c"` // nan inf zero fin unspec
 	S int    `json:"s"`
-	M int    `json:"m"`
+	M mant   `json:"m"`
 	E int    `json:"e"`
+}
+
+// abs is |v| for a finite v held by a format: the mantissa has at most 53 bits, the conversion is exact.
+func (f fval) abs() float64 {
+	return math.Ldexp(float64(f.M.Uint64()), f.E)
 }
 
 type cval struct {
@@ -69,7 +91,7 @@ func (f fval) f64() float64 {
 	case "zero":
 		v = 0
 	case "fin":
-		v = math.Ldexp(float64(f.M), f.E) // exact: m < 2^30, result representable by construction
+		v = f.abs() // exact: the model's results are values of the format
 	}
 	if f.S == 1 {
 		v = math.Copysign(v, -1)
@@ -82,13 +104,15 @@ func (f fval) lit() string {
 	if f.C == "zero" {
 		return "0.0"
 	}
-	v := math.Ldexp(float64(f.M), f.E)
-	s := strconv.FormatFloat(v, 'f', -1, 64)
+	s := ""
 	exact := false
-	if len(s) <= 12 {
+	if f.M.BitLen() <= 53 {
+		s = strconv.FormatFloat(f.abs(), 'f', -1, 64)
+	}
+	if s != "" && len(s) <= 12 {
 		// use the decimal form only when it denotes m*2^e exactly
 		r, ok := new(big.Rat).SetString(s)
-		want := new(big.Rat).SetInt64(int64(f.M))
+		want := new(big.Rat).SetInt(&f.M.Int)
 		two := big.NewRat(2, 1)
 		if f.E < 0 {
 			two = big.NewRat(1, 2)
@@ -99,7 +123,7 @@ func (f fval) lit() string {
 		exact = ok && r.Cmp(want) == 0
 	}
 	if !exact {
-		s = fmt.Sprintf("0x%xp%d", f.M, f.E) // hexadecimal mantissa, binary exponent: exact
+		s = fmt.Sprintf("0x%sp%d", f.M.Text(16), f.E) // hexadecimal mantissa, binary exponent: exact
 	} else if !strings.ContainsAny(s, ".") {
 		s += ".0"
 	}
